@@ -29,6 +29,9 @@ def setup(J):
         for k in ((1, 2) if tier == "quick" else (0, 1, 2, 3)):
             for seps in ((",", "+"), (" ", ":")):
                 jobs.append(J.with_delay_fallback(J.wf("C18", "gjoin2", k, 1, 2, "cmd", oracles=o, tier=tier, events_dep=False, extra=seps[0] + "|" + seps[1], id=f"C18-two-ports-k{k}-sep{ord(seps[0])}-{ord(seps[1])}"), 1))
+        # members produced by ONE upstream task (both outputs of a two-output task end in the sub-stream): each is an upstream of its own
+        for sep in (" ", ","):
+            jobs.append(J.with_delay_fallback(J.wf("C18", "gjoin5", 1, 1, 2, "cmd", oracles=["nohang", "clean", "c18", "c10"], tier=tier, events_dep=False, extra=sep, id=f"C18-members-of-one-task-sep{ord(sep)}"), 1))
         # memory-level pass: the same scenario on the race-instrumented build, where assignments to struct fields are
         # scheduling points too (the carrier IP's sub-stream field is set by one goroutine and read by another)
         for k in (1, 2):
